@@ -224,6 +224,18 @@ def sync (s : St) (k : Nat) : St :=
   let (t, ds) := unwind k s.trail s.doms
   ⟨ds, t, k⟩
 
+/-- the list `synchronise` returns: variables which were fixed right before one of the popped entries
+was undone and are not fixed right after (with the value they were fixed to); newest entry first -/
+def unfixed (k : Nat) : List Entry → List IDom → List (Nat × Int)
+  | [], _ => []
+  | e :: r, ds =>
+    if k < e.level then
+      let d := ds.getD e.atom.var default
+      let d' := d.undo e.atom
+      let rest := unfixed k r (ds.set e.atom.var d')
+      if d.lb = d.ub ∧ d'.lb ≠ d'.ub then (e.atom.var, d.lb) :: rest else rest
+    else []
+
 /-- `evaluate_predicate` -/
 def evaluate (s : St) : Atom → Option Bool
   | .ge x k => if s.lb x ≥ k then some true else if s.ub x < k then some false else none
